@@ -142,7 +142,12 @@ int main(int argc, char **argv) {
             if (skipalloc && (cur_nr == SYS_mmap || cur_nr == SYS_munmap || cur_nr == SYS_brk || cur_nr == SYS_mprotect || cur_nr == SYS_madvise || cur_nr == SYS_futex || cur_nr == SYS_mremap)) continue;
             idx++; counted = 1;
             if (idx >= maxcalls) { runaway = 1; kill(pid, SIGKILL); waitpid(pid, &st, 0); killed_by_us = 1; counted = 0; break; }
-            if (idx >= maxrec) { counted = 0; continue; }   /* numbered but no longer recorded */
+            if (idx >= maxrec) {   /* numbered but no longer recorded - the persistent fault of --failfrom / --failnr still applies (a retry-until-success loop must reach maxcalls) */
+                /* (not for EINTR: libc itself retries an interrupted call for as long as it is interrupted - TEMP_FAILURE_RETRY in getlogin_r() and others -
+                   so a persistent EINTR lets go once the recording cap is reached; any other persistent error stays) */
+                if (ffnr >= 0 && idx >= ffk && cur_nr == ffnr && ffe != 4) { regs.orig_rax = (unsigned long long)-1; ptrace(PTRACE_SETREGS, pid, 0, &regs); pend = 1; pend_ret = -ffe; }
+                if (fnk >= 0 && idx >= fnk && cur_nr == fnnr && fne != 4) { regs.orig_rax = (unsigned long long)-1; ptrace(PTRACE_SETREGS, pid, 0, &regs); pend = 1; pend_ret = -fne; }
+                counted = 0; continue; }
             if (!first) fputc(',', out); first = 0;
             fprintf(out, "\n{\"w\":%d,\"i\":%ld,\"nr\":%ld,\"name\":\"%s\",\"a\":[%lld,%lld,%lld,%lld]", winno, idx, cur_nr, scname(cur_nr), (long long)regs.rdi, (long long)regs.rsi, (long long)regs.rdx, (long long)regs.r10);
             int pa = path_arg(cur_nr);
@@ -165,6 +170,7 @@ int main(int argc, char **argv) {
             if (idx == killk && !kill_at_exit) { fprintf(out, ",\"killed\":\"entry\"}"); kill(pid, SIGKILL); waitpid(pid, &st, 0); killed_by_us = 1; counted = 0; break; }
         } else { /* ---- exit */
             in_sys = 0;
+            if (!counted && pend) { ptrace(PTRACE_GETREGS, pid, 0, &regs); regs.rax = (unsigned long long)pend_ret; ptrace(PTRACE_SETREGS, pid, 0, &regs); }   /* unrecorded call under a persistent fault */
             if (!counted) continue;
             if (pend) { regs.rax = (unsigned long long)pend_ret; ptrace(PTRACE_SETREGS, pid, 0, &regs); }
             if (idx == fak) { regs.rax = (unsigned long long)(-fae); ptrace(PTRACE_SETREGS, pid, 0, &regs); fprintf(out, ",\"result_replaced\":%ld", -fae); }   /* the call was executed; only its result is replaced */
